@@ -19,7 +19,7 @@ if os.path.exists(demo):
     m = re.search(r'^package (\w+)', open(demo).read(), re.M)
     if m: pkg = "package " + m.group(1)
 meta = {"property": prop, "what_it_needs_to_manifest": needs,
-        "demo": {"file": "demo_test.go", "package": pkg, "copy_to": "repository root", "run": "go test -vet=off -count=1 -run 'TestSeedDemo$' ."},
+        "demo": {"file": "demo_test.go", "package": pkg, "copy_to": os.environ.get("COPY_TO", "repository root"), "run": "go test -vet=off -count=1 -run 'TestSeedDemo$' ."},
         "what_i_ran": ["tools/confirm_seed.sh: scratch worktree of /repo HEAD, git apply patch.diff, go build ./..., demo FAILS with the change, git apply -R, demo PASSES",
                        "tools/confirm_seed.sh ... suite: go test -vet=off -count=1 -timeout 25m ./... with the change: " + suite,
                        "tools/try_patch.sh patch.diff <checks>: quick checks against a scratch worktree with the change (VERIF_REPO)"],
